@@ -178,6 +178,14 @@ impl Fdt {
             ));
         }
 
+        if let Some(toi) = obj.config.toi.as_ref() {
+            if !toi.is_allocated_by(&self.toi_allocator) {
+                return Err(FluteError::new(
+                    "TOI of the object has not been allocated by this sender",
+                ));
+            }
+        }
+
         if obj.config.toi.is_none() {
             obj.set_toi(self.allocate_toi());
         }
